@@ -100,6 +100,24 @@ def build_wasm(scratch, overlay, cmds):
         raise Inconclusive("WASM-BUILD-FAILED (wbuild with the current tree): " + (r.stderr or r.stdout)[-3000:])
 
 
+def build_wasm_keepgoing(scratch, overlay, cmds):
+    """Like build_wasm but returns {index: error text} for the commands that failed instead of raising."""
+    lst = os.path.join(scratch, "wbuildk_%d.txt" % (time.time_ns() % 10**9))
+    with open(lst, "w") as fh:
+        for c in cmds:
+            fh.write(" ".join(c) + "\n")
+    r = subprocess.run(["go", "run", "-tags", "verif", "-overlay", overlay, "./internal/zzverif/wbuild", "batch-keepgoing", lst],
+                       cwd=REPO, env=GOENV, capture_output=True, text=True)
+    if r.returncode != 0:
+        raise Inconclusive("WASM-BUILD-FAILED (wbuild with the current tree): " + (r.stderr or r.stdout)[-3000:])
+    failed = {}
+    for line in r.stdout.splitlines():
+        m = re.match(r"FAILED (\d+) (.*)", line)
+        if m:
+            failed[int(m.group(1))] = m.group(2)
+    return failed
+
+
 def build_replay_bin(scratch, overlay, pkgdir, tag="replay"):
     out = os.path.join(scratch, tag + "_" + pkgdir.replace("/", "_") + ".test")
     r = subprocess.run(["go", "test", "-c", "-vet=off", "-tags", "verif", "-overlay", overlay, "-o", out,
